@@ -2,7 +2,8 @@
 Model driver for C11. Line protocol (single spaces; "-" = empty list / empty string):
 
   put <entry> <want> <retries> <hash> <datahex> <svc;svc;...> <pick,pick,...>
-      entry = raw | puthb | putb | puthr:<dataBytes>
+      entry = raw | puthb | putb | puthr:<dataBytes> | puthrx:<dataBytes>   (puthrx: the stream given to
+              PutHR delivers the data and then fails with an error instead of EOF)
       svc   = <uuid>:<d|p>:<w|r>:<out,out,...>        (d = disk, p = proxy; w = writable, r = read-only)
       out   = e                       connection error
             | k                       honest store: 200 "<hash>+<len>" / replicas 1 if md5(body) = hash, else 422
@@ -22,6 +23,11 @@ Model driver for C11. Line protocol (single spaces; "-" = empty list / empty str
 
   upl <e | <code>[H<hex>][B<hex>][X]>      X = the body fails with a non-EOF error after its bytes
     -> <statusCode> <replicasStored> <responsehex, only for 200>
+
+  disc api <uuid,host,port,ssl,type,ro;...>     -- a fresh client discovers its services from a stub
+                                                   API server (discoverServices, cache, poll, Call)
+  disc uris <uri,uri,...>                        -- ... or from ARVADOS_KEEP_SERVICES
+    -> as for load, plus asked=<METHOD:path:auth of the API request | ->
 
   load <nd0> <uuid,host,port,ssl,type,ro;...>
     -> L=<uuid=url,...> W=<...> G=<...> rps=<n> nd=<0|1>          (maps sorted by uuid)
@@ -99,6 +105,7 @@ structure Sent where
   body : List Nat
   fails : Bool
 
+/-- `Model.honestCode` with the locator the honest store issues -/
 def honestUp (sent : Sent) : Up :=
   if md5hexOfNats sent.body == sent.hash then
     upload (.resp 200 (some ['1']) ((sent.hash ++ "+" ++ toString sent.body.length).toUTF8.toList.map (·.toNat)) false)
@@ -121,32 +128,26 @@ def runPut (entry : String) (want retries : Nat) (hash : String) (data : List Na
     (svcs : List SvcCase) (picks : List Nat) : String :=
   let n := svcs.length
   let zeros := joinC (List.replicate n "0")
-  -- entry point
-  let ent : Option (Entry × Sent) :=
-    if entry == "raw" || entry == "puthb" then
-      some (putHB hash.toList data.length, { hash := hash, body := data, fails := false })
-    else if entry == "putb" then
-      let h := md5hexOfNats data
-      some (putB h.toList data.length, { hash := h, body := data, fails := false })
+  -- entry point: the requests it makes (Model: putHBWire / putBWire / putHRWire), `none` = oversize
+  let md5l := fun (b : List Nat) => (md5hexOfNats b).toList
+  let wire : Option (Option Wire) :=
+    if entry == "raw" || entry == "puthb" then some (some (putHBWire hash.toList data))
+    else if entry == "putb" then some (some (putBWire md5l data))
     else match entry.splitOn ":" with
-      | ["puthr", nb] =>
+      | [e, nb] =>
+        if e != "puthr" && e != "puthrx" then none else
         match nb.toInt? with
         | some dataBytes =>
-          let e := putHR hash.toList dataBytes
-          let sent : Sent := match e with
-            | .call p => if p.hasBody then
-                { hash := hash, body := data,
-                  fails := md5hexOfNats data != hash || (data.length : Int) != dataBytes }
-              else { hash := hash, body := [], fails := false }
-            | .oversize => { hash := hash, body := [], fails := false }
-          some (e, sent)
+          some (putHRWire md5l hash.toList { data := data, fin := if e == "puthrx" then .err else .eof } dataBytes)
         | none => none
       | _ => none
+  let ent : Option (Option Sent) := wire.map fun ow => ow.map fun w =>
+    { hash := String.ofList w.hash, body := w.delivered.getD [], fails := w.delivered.isNone }
   match ent with
   | none => "bad-op"
-  | some (.oversize, _) => s!"oversize - 0 {zeros} -|-"
-  | some (.call pc, sent) =>
-    let h := String.ofList pc.hash
+  | some none => s!"oversize - 0 {zeros} -|-"
+  | some (some sent) =>
+    let h := sent.hash
     -- service discovery
     let svcList : List Svc := svcs.mapIdx fun i s =>
       { uuid := s.uuid.toList, host := s!"h{i}.example".toList, port := 25107, ssl := false,
@@ -219,7 +220,7 @@ def seqOf (k : String) (rest : List String) : String :=
     if n == 0 || puts.length != n then "bad-op" else
     let key := (puts.head?.bind (·[5]?)).map svcKey
     let okShape := puts.all fun p =>
-      (p[5]?.map svcKey) == key && !((p[0]?.getD "").startsWith "puthr:")
+      (p[5]?.map svcKey) == key && !((p[0]?.getD "").startsWith "puthr")
     if !okShape then "bad-op" else
     let outs := puts.map putOf
     if outs.any (· == "bad-op") then "bad-op" else " / ".intercalate outs
@@ -236,6 +237,15 @@ def step (line : String) : String :=
       let u := upload (.resp code hdr body be)
       s!"{u.code} {u.rep} {if u.code == 200 then hexOfNats u.body else "-"}"
     | _ => "bad-op"
+  | ["disc", "api", svcs] =>
+    match (splitOr ";" svcs).mapM parseLoadSvc with
+    | some l =>
+      let r := discoverAPI l
+      s!"L={showMap r.locals} W={showMap r.writable} G={showMap r.gateways} rps={r.rps} nd={if r.nonDisk then 1 else 0} asked=GET:/arvados/v1/keep_services/accessible:auth"
+    | none => "bad-op"
+  | ["disc", "uris", uris] =>
+    let r := discoverURIs ((splitOr "," uris).map String.toList)
+    s!"L={showMap r.locals} W={showMap r.writable} G={showMap r.gateways} rps={r.rps} nd={if r.nonDisk then 1 else 0} asked=-"
   | ["load", nd0, svcs] =>
     if nd0 != "0" && nd0 != "1" then "bad-op" else
     match (splitOr ";" svcs).mapM parseLoadSvc with
